@@ -157,7 +157,7 @@ fn tuple_payload_block(&mut self, w: &mut WriteSink, e: &RustEnum, tag_key: &Str
 UNIT = Unit(
     name='opt_ts', props=['C04', 'C12', 'C07'], pre_verus=O.PRE_VERUS, spec_files=['std_slices.rs', 'seqjoin.rs', 'typexpr.rs', 'txt.rs', 'optmark.rs'], prelude=PRELUDE,
     items=O.base_items('TypeScript', SRC) + [
-        Item('write_field', SRC, ['impl TypeScript {', 'fn write_field'], FIELD, wrap=('impl TypeScript {\n', '\n}\n'),
+        Item('write_field', SRC, ['impl TypeScript {', 'fn write_field'], FIELD, wrap=('impl TypeScript {\n#[verifier::rlimit(40)] // solver budget only: up to 25 M resource units depending on the seed, the default cap is 30 M\n', '\n}\n'),
              auto=('fmt', 'strlit', 'then_some', 'map_err_q')),
         Item('end_file', SRC, ['impl Language for TypeScript {', 'fn end_file'], ENDFILE, wrap=('impl TypeScript {\n', '\n}\n'), auto=('fmt', 'strlit')),
         Item('tuple_payload_block', SRC, ['impl TypeScript {', 'fn write_enum_variants'], [], wrap=PAYLOAD_WRAP,
